@@ -85,6 +85,18 @@ def gen_e2e(ctx):
                     grp = ("r" + part.hex() + "," if part else "") + drop
                     yield eline(c, [connect(tls=bool(tls)), "noop@" + grp, "isconn", "disc:0", connect(tls=bool(tls)), "noop@" + R(b"200 ok")])
     ctx["scopes"].append("e2e: control connection closed / reset by the server after each of %d partial single- and multi-line replies x TLS 1.2 / 1.3 / plain" % len(partials))
+    # calls on a connection the server has ended (421 closes it inside the library; a drop / reset is noticed by the next
+    # call): every kind of call in every data-connection method must end in a return or an ftp_exception - also the ones
+    # that ask the dead socket for its addresses before they send anything (active-mode set-up, EPSV)
+    from props.e2egen import get, put, lst
+    for tls in (0, 1):
+        for mode in "pa":
+            for rfc in (0, 1):
+                # (a connection the server dropped without a 421 is left out: whether the next write still succeeds is a race)
+                for end in (R(b"421 closing") + ",X", R(b"421-bye\r\n421 closing")):
+                    c = cfg_str(mode=mode, rfc=rfc, ver=13, tls=tls, prop="C08", verify="none")
+                    yield eline(c, [connect(tls=bool(tls)), "noop@" + end, get(mode, rfc), lst(mode, rfc), put(mode, rfc), "noop@" + R(b"200 ok"), "isconn", "disc:0"])
+    ctx["scopes"].append("e2e: download / listing / upload / simple call after the server ended the control connection (421, multi-line 421) x four methods x plain / TLS")
 
 PROP = {
     "id": "C08",
